@@ -90,6 +90,7 @@ func TestProp(t *testing.T) {
 	}
 	if env.Replay == "" {
 		rep.Floor("forwarded_authenticated", 300)
+		rep.Floor("authenticated_via_favicon_handler", 50)
 		rep.Floor("forwarded_skip_auth", 300)
 		rep.Floor("forwarded_preflight", 30)
 		rep.Floor("forwarded_with_pass_token", 100)
@@ -153,6 +154,12 @@ func runCase(rep *vh.Report, env vh.Env, stacks []*stackKind, i int) {
 	if mode == "authenticated" && r.Intn(4) == 0 {
 		rq.Method = "POST"
 		rq.Body = []byte("a=b")
+	}
+	// every path that ends up being proxied for an authenticated user must behave the same: the favicon
+	// has a handler of its own in front of the proxying one (seeded change C03c took a short cut there)
+	if mode == "authenticated" && r.Intn(5) == 0 {
+		rq.Target = "/favicon.ico"
+		rep.Count("authenticated_via_favicon_handler", 1)
 	}
 
 	// hostile identity headers
